@@ -56,6 +56,46 @@ class U64(int):
         return f"{int(self)}u64"
 
 
+class LenInt(int):
+    """a concrete integer that is (or is computed from) the LENGTH of a collection whose size was fixed by the unit's instance, not
+    by the code: the value is an artefact of the chosen instance.  The taint survives integer arithmetic; a comparison of a LenInt
+    with an untainted constant is a SIZE-DEPENDENT BRANCH of the code and is recorded (see Interp.note_len_cmp / runner.run_r)."""
+
+    def __repr__(self):
+        return int.__repr__(int(self))
+
+    __str__ = __repr__
+
+    def __format__(self, spec):
+        return format(int(self), spec)
+
+
+def _len_binop(name):
+    base = getattr(int, name)
+
+    def f(self, other):
+        r = base(int(self), int(other)) if isinstance(other, int) and not isinstance(other, bool) else base(int(self), other)
+        return LenInt(r) if type(r) is int else r
+    return f
+
+
+for _n in ("__add__", "__radd__", "__sub__", "__rsub__", "__mul__", "__rmul__", "__floordiv__", "__rfloordiv__", "__mod__",
+           "__lshift__", "__rlshift__", "__rshift__"):
+    setattr(LenInt, _n, _len_binop(_n))
+
+class ThresholdInt(int):
+    """a lowered size threshold (unit const `__threshold_override__`): may only be COMPARED with a length; any arithmetic on it, or a
+    comparison with something that is not an instance-determined length, leaves the fragment"""
+
+    def _no(self, *a):
+        raise OutsideFragment("a lowered size threshold is used for something other than a comparison with a length")
+
+    __add__ = __radd__ = __sub__ = __rsub__ = __mul__ = __rmul__ = __floordiv__ = __rfloordiv__ = __mod__ = __lshift__ = __rshift__ = _no
+
+
+_LEN_CMPS = []      # size-dependent comparisons met by the current unit run: (op with the tainted side on the left, K, value, outcome)
+
+
 class AstLost(Exception):
     pass
 
@@ -890,6 +930,13 @@ class Interp:
         if k == "item":
             it = st["item"]
             if it["kind"] == "const":
+                ov_ = self.consts.get("__threshold_override__") or {}
+                if it["name"] in ov_:
+                    # INSTANCE PARAMETER: a size threshold of the code lowered so that small instances execute the large-size path.
+                    # Only sound for a constant that is nothing but a threshold: every use must be a comparison with a length.
+                    self.threshold_overrides_used = getattr(self, "threshold_overrides_used", set()) | {it["name"]}
+                    env[it["name"]] = ThresholdInt(ov_[it["name"]])
+                    return UNIT
                 env[it["name"]] = self.expr(it["expr"], env)
                 return UNIT
             if it["kind"] == "use":
@@ -1054,6 +1101,7 @@ class Interp:
                     return op == "=="
                 l, r = _deref(l.args[0]), _deref(r.args[0])
             if isinstance(l, int) and isinstance(r, int):
+                self.note_len_cmp(op, l, r, (l == r) if op == "==" else (l != r))
                 return (l == r) if op == "==" else (l != r)
             if isinstance(l, (Poly, int)) and isinstance(r, (Poly, int)) and not as_poly(l).vars() and not as_poly(r).vars():
                 same = (as_poly(l) - as_poly(r)).is_zero()
@@ -1065,7 +1113,9 @@ class Interp:
                 pass
             return VOpaque("ne" if op == "!=" else "eq", [l, r])
         if op in ("<", "<=", ">", ">=") and isinstance(l, int) and isinstance(r, int):
-            return {"<": l < r, "<=": l <= r, ">": l > r, ">=": l >= r}[op]
+            out_ = {"<": l < r, "<=": l <= r, ">": l > r, ">=": l >= r}[op]
+            self.note_len_cmp(op, l, r, out_)
+            return out_
         if op in ("<", "<=", ">", ">="):
             return VOpaque({"<": "lt", "<=": "le", ">": "gt", ">=": "ge"}[op], [l, r])
         if op in ("<<", ">>", "^") and isinstance(l, int) and isinstance(r, int) and not isinstance(l, bool):
@@ -1087,6 +1137,18 @@ class Interp:
                 return U64(res_) if isinstance(l, U64) or isinstance(r, U64) else res_
             return VOpaque("or" if op in ("||", "|") else "and", [l, r])
         self.fail(e, f"binary operator {op}")
+
+    def note_len_cmp(self, op, l, r, outcome):
+        """a comparison between an instance-determined length (LenInt) and an untainted constant: a size-dependent branch"""
+        lt, rt = isinstance(l, LenInt), isinstance(r, LenInt)
+        if (isinstance(l, ThresholdInt) and not rt) or (isinstance(r, ThresholdInt) and not lt):
+            raise OutsideFragment("a lowered size threshold is compared with something that is not an instance-determined length")
+        if lt == rt or isinstance(l, bool) or isinstance(r, bool):
+            return
+        if rt:      # normalise: tainted side on the left
+            op = {"<": ">", "<=": ">=", ">": "<", ">=": "<=", "==": "==", "!=": "!="}[op]
+            l, r = r, l
+        _LEN_CMPS.append((op, int(r), int(l), bool(outcome)))
 
     def arith(self, op, l, r, node):
         l, r = _deref(l), _deref(r)
@@ -2261,7 +2323,7 @@ class Interp:
         if m == "collect" and isinstance(recv, VIter):
             return VArr(recv.items, "vec")
         if m == "len" and isinstance(recv, (VArr, VIter)):
-            return len(recv.items)
+            return LenInt(len(recv.items))
         if m == "is_empty" and isinstance(recv, (VArr, VIter)):
             return len(recv.items) == 0
         if m in ("is_some", "is_none") and not args and isinstance(recv, VOpaque) and recv.name in ("Some", "None") \
@@ -2317,6 +2379,12 @@ class Interp:
             # `.get(i)` on a collection of known length: a CONCRETE option
             i_ = int(args[0])
             return VOpaque("Some", [recv.items[i_]]) if 0 <= i_ < len(recv.items) else VOpaque("None")
+        if m == "get" and isinstance(recv, VArr) and len(args) == 1 and isinstance(args[0], VRange) \
+                and all(x is None or (isinstance(x, int) and not isinstance(x, bool)) for x in (args[0].lo, args[0].hi)):
+            # `.get(lo..hi)` on a collection of known length: Some(sub-slice) iff lo <= hi <= len (never panics)
+            lo_ = 0 if args[0].lo is None else int(args[0].lo)
+            hi_ = len(recv.items) if args[0].hi is None else int(args[0].hi)
+            return VOpaque("Some", [VView(recv, lo_, hi_)]) if 0 <= lo_ <= hi_ <= len(recv.items) else VOpaque("None")
         if m == "get" and isinstance(recv, (Sym, VOpaque)) and len(args) == 1:
             return VOpaque("get", [recv, args[0]])
         if m in ("chunks_exact", "chunks") and isinstance(recv, (Sym, VOpaque)) and len(args) == 1:
@@ -2543,7 +2611,7 @@ class Interp:
             del recv.items[:]
             return UNIT
         if m == "len" and isinstance(recv, (VArr, VIter)) and not args:
-            return len(recv.items)
+            return LenInt(len(recv.items))
         if m == "is_empty" and isinstance(recv, (VArr, VIter)) and not args:
             return len(recv.items) == 0
         if m in ("is_some_and", "is_none_or") and isinstance(recv, VOpaque) and recv.name in ("Some", "None") and isinstance(args[0], VClosure):
@@ -2578,18 +2646,19 @@ class Interp:
             if m == "trailing_zeros":
                 if v == 0:
                     raise OutsideFragment("trailing_zeros(0) depends on the integer width, which the AST does not carry")
-                return (v & -v).bit_length() - 1
+                return (LenInt if isinstance(recv, LenInt) else int)((v & -v).bit_length() - 1)
             if m == "leading_zeros":
                 raise OutsideFragment("leading_zeros depends on the integer width, which the AST does not carry")
+            keep_ = LenInt if isinstance(recv, LenInt) else int
             if m == "count_ones":
-                return bin(v).count("1")
+                return keep_(bin(v).count("1"))
             if m == "is_power_of_two":
                 return v != 0 and v & (v - 1) == 0
-            return 1 if v == 0 else 1 << (v - 1).bit_length()
+            return keep_(1 if v == 0 else 1 << (v - 1).bit_length())
         if m == "div_ceil" and isinstance(recv, int) and len(args) == 1 and isinstance(args[0], int):
             if args[0] == 0:
                 raise OutsideFragment("division by zero (would panic)")
-            return -(-recv // args[0])
+            return (LenInt if isinstance(recv, LenInt) else int)(-(-int(recv) // int(args[0])))
         if m == "collect" and isinstance(recv, VIter) and not args and ".collect" not in self.contracts:
             return VArr(list(recv.items), "vec")
         if m == "split_at_checked" and isinstance(recv, VArr) and len(args) == 1 and isinstance(args[0], int):
@@ -3114,8 +3183,11 @@ def _memo_obligations(unit):
 def run_unit(root, unit, contracts, seed=0, perturb=None):
     """see _run_unit; memo-cache findings are definite on their own: they are reported even when the symbolic run leaves the fragment"""
     del _MEMO_FOUND[:]
+    del _LEN_CMPS[:]
     try:
-        return _run_unit(root, unit, contracts, seed=seed, perturb=perturb)
+        obs_, calls_ = _run_unit(root, unit, contracts, seed=seed, perturb=perturb)
+        fn_ = f"{unit.file}::{unit.fn}"
+        return obs_, list(calls_) + sorted({f"LEN-CMP|{fn_}|len {op_} {k_}|{v_}|{int(o_)}" for (op_, k_, v_, o_) in _LEN_CMPS})
     except OutsideFragment:
         bad = [o for o in _memo_obligations(unit) if o["status"] == "failed"]
         if bad and not perturb:
